@@ -15,7 +15,7 @@
 (*               non-blocking send on the subscriber channel; query done:            *)
 (*               deregisterHandler                                                   *)
 (*  deregisterHandler: d_lk Lock, d_get lookup+delete, d_ul Unlock, then Cleanup     *)
-(*  Cleanup:     k_chk if !closed, k_c1 close(ch) (k_c2 close(respCh)), k_fl closed  *)
+(*  Cleanup:     (k_lk) k_chk if !closed, k_c1 close(ch) (k_c2 close(respCh)), k_fl    *)
 (*               = true   -- the closed / init flags are not synchronised            *)
 (*  Stop:        deregisterHandler; genericRPC: s_rlk/s_reg handleSeq, s_send send   *)
 (*               (IsClosed under the shutdown lock), s_wait select(errCh,            *)
@@ -27,7 +27,7 @@
 (* dies (no further action).                                                         *)
 EXTENDS Integers, Sequences, FiniteSets, TLC
 
-CONSTANTS Scens     \* set of scenarios [subs |-> <<kinds>>, pre |-> <<[h, ty]>>, prog |-> <<user programs>>]
+CONSTANTS Scens     \* set of scenarios [subs |-> <<kinds>>, pre |-> <<[h, ty]>>, prog |-> <<user programs>>, fx |-> variant]
 
 VARIABLES S, M, last
 vars == <<S, M, last>>
@@ -39,14 +39,17 @@ IdleTh == [pc |-> "idle", i |-> 0, cur |-> 0, ok |-> FALSE, rec |-> Nop, rpc |->
 Users(sc) == { u + 1 : u \in DOMAIN sc.prog }
 Subs(s) == DOMAIN s.subs
 
-InitS(sc) ==
-  [ disp |-> DOMAIN sc.subs, dl |-> 0, sl |-> 0, shut |-> FALSE, cc |-> FALSE,
+\* fx = TRUE: the code with the proposed fix (reports/conc-fix-2.diff): a mutex per handler, held by Handle
+\* around "if closed return; send" and by Cleanup around "if !closed { close; closed = true }"
+InitSx(sc, fx) ==
+  [ fx |-> fx, hl |-> [h \in DOMAIN sc.subs |-> 0], disp |-> DOMAIN sc.subs, dl |-> 0, sl |-> 0, shut |-> FALSE, cc |-> FALSE,
     hcl |-> [h \in DOMAIN sc.subs |-> FALSE],
     cls |-> [h \in DOMAIN sc.subs |-> <<0, 0>>],
     got |-> [h \in DOMAIN sc.subs |-> <<0, 0>>],
     inbox |-> sc.pre, errch |-> [t \in Users(sc) |-> 0], panic |-> "",
     th |-> [t \in {L} \cup Users(sc) |-> IF t = L THEN [IdleTh EXCEPT !.pc = "l_lk"] ELSE IdleTh],
     subs |-> sc.subs, prog |-> sc.prog ]
+InitS(sc) == InitSx(sc, FALSE)
 
 Prog(s, t) == s.prog[t - 1]
 HasOp(s, t) == t # L /\ s.th[t].i < Len(Prog(s, t))
@@ -90,21 +93,24 @@ Acts(s, t) ==
                                                THEN << [h |-> th.rec.h, ty |-> "body"] >> \o @ ELSE @] }
     [] pc = "l_h"   -> IF th.cur >= 100 THEN { [s EXCEPT !.errch[th.cur - 100] = 1, !.th[t].pc = "l_hdr"] }
                        ELSE IF th.rec.ty = "done" THEN { [s EXCEPT !.th[t].pc = "d_lk", !.th[t].rpc = "l_hdr"] }
-                       ELSE { Goto(s, t, "l_snd") }
+                       ELSE { Goto(s, t, IF s.fx THEN "l_hlk" ELSE "l_snd") }
+    [] pc = "l_hlk" -> IF s.hl[th.cur] = 0 THEN { [s EXCEPT !.hl[th.cur] = t, !.th[t].pc = "l_ck"] } ELSE {}
+    [] pc = "l_ck"  -> IF s.hcl[th.cur] THEN { [s EXCEPT !.hl[th.cur] = 0, !.th[t].pc = "l_hdr"] } ELSE { Goto(s, t, "l_snd") }
     [] pc = "l_snd" -> LET j == IF th.rec.ty = "resp" THEN 2 ELSE 1 IN
                        IF s.cls[th.cur][j] >= 1 THEN { PanicIn(s, t, "send on closed channel") }
-                       ELSE { [s EXCEPT !.got[th.cur][j] = @ + 1, !.th[t].pc = "l_hdr"] }
+                       ELSE { [s EXCEPT !.got[th.cur][j] = @ + 1, !.hl[th.cur] = IF s.fx THEN 0 ELSE @, !.th[t].pc = "l_hdr"] }
     [] pc = "l_x"   -> IF s.sl = 0 THEN { [s EXCEPT !.th[t].pc = "c_lk", !.th[t].rpc = "l_end"] } ELSE {}
     \* deregisterHandler(th.cur), returns to th.rpc
     [] pc = "d_lk"  -> IF s.dl = 0 THEN { [s EXCEPT !.dl = t, !.th[t].pc = "d_get"] } ELSE {}
     [] pc = "d_get" -> { [s EXCEPT !.th[t].ok = th.cur \in s.disp, !.disp = @ \ {th.cur}, !.th[t].pc = "d_ul"] }
     [] pc = "d_ul"  -> { [s EXCEPT !.dl = 0, !.th[t].rpk = th.rpc,
-                                   !.th[t].pc = IF th.ok /\ th.cur < 100 THEN "k_chk" ELSE th.rpc] }
+                                   !.th[t].pc = IF th.ok /\ th.cur < 100 THEN (IF s.fx THEN "k_lk" ELSE "k_chk") ELSE th.rpc] }
     \* Cleanup of subscription th.cur, returns to th.rpk
-    [] pc = "k_chk" -> { Goto(s, t, IF s.hcl[th.cur] THEN th.rpk ELSE "k_c1") }
+    [] pc = "k_lk"  -> IF s.hl[th.cur] = 0 THEN { [s EXCEPT !.hl[th.cur] = t, !.th[t].pc = "k_chk"] } ELSE {}
+    [] pc = "k_chk" -> { IF s.hcl[th.cur] THEN [s EXCEPT !.hl[th.cur] = 0, !.th[t].pc = th.rpk] ELSE Goto(s, t, "k_c1") }
     [] pc = "k_c1"  -> { CloseCh(s, t, th.cur, 1, IF IsQuery(s, th.cur) THEN "k_c2" ELSE "k_fl") }
     [] pc = "k_c2"  -> { CloseCh(s, t, th.cur, 2, "k_fl") }
-    [] pc = "k_fl"  -> { [s EXCEPT !.hcl[th.cur] = TRUE, !.th[t].pc = th.rpk] }
+    [] pc = "k_fl"  -> { [s EXCEPT !.hcl[th.cur] = TRUE, !.hl[th.cur] = 0, !.th[t].pc = th.rpk] }
     \* Stop after the deregistration: the stop RPC
     [] pc = "s_rlk" -> IF s.dl = 0 THEN { [s EXCEPT !.dl = t, !.th[t].pc = "s_reg"] } ELSE {}
     [] pc = "s_reg" -> { [s EXCEPT !.disp = @ \cup {100 + t}, !.dl = 0, !.th[t].pc = "s_send"] }
@@ -120,7 +126,8 @@ Acts(s, t) ==
     [] pc = "c_dlk" -> IF s.dl = 0 THEN { [s EXCEPT !.dl = t, !.th[t].todo = s.disp, !.th[t].pc = "c_it"] } ELSE {}
     [] pc = "c_it"  -> IF th.todo = {} THEN { [s EXCEPT !.disp = {}, !.dl = 0, !.th[t].pc = "c_cc"] }
                        ELSE { IF h >= 100 THEN [s EXCEPT !.th[t].todo = @ \ {h}]
-                              ELSE [s EXCEPT !.th[t].todo = @ \ {h}, !.th[t].cur = h, !.th[t].rpk = "c_it", !.th[t].pc = "k_chk"]
+                              ELSE [s EXCEPT !.th[t].todo = @ \ {h}, !.th[t].cur = h, !.th[t].rpk = "c_it",
+                                             !.th[t].pc = IF s.fx THEN "k_lk" ELSE "k_chk"]
                               : h \in th.todo }
     [] pc = "c_cc"  -> { CloseRet([s EXCEPT !.cc = TRUE, !.sl = 0], t) }
     \* the agent sends one more record
@@ -193,7 +200,7 @@ Ev(t, inv, fin, s, end) == [t |-> t, inv |-> inv, fin |-> fin, cl |-> ClosedView
 Scen(s) == [subs |-> s.subs, prog |-> s.prog]
 
 ------------------------------------------------------------------------------
-Init == /\ \E sc \in Scens : S = InitS(sc) /\ M = MonInit(sc)
+Init == /\ \E sc \in Scens : S = InitSx(sc, sc.fx) /\ M = MonInit(sc)
         /\ last = [a |-> "init"]
 
 StartAct(t) ==
